@@ -164,6 +164,12 @@ func (p plan) truth() (ns, nf, nd int64) {
 	return
 }
 
+// cadence is the period the progress reporter passes with its k-th snapshot: the reporter's own
+// schedule (every second, then every 10 s, 30 s, 1 min), the changes of cadence brought forward.
+func cadence(k int) time.Duration {
+	return []time.Duration{time.Second, 10 * time.Second, 30 * time.Second, time.Minute}[min(k/6, 3)]
+}
+
 // stressOnce drives the real ActiveScenario.Run / RecordDroppedIteration from
 // W goroutines while S goroutines take progress snapshots through the real
 // Result (write lock), then takes the final totals.
@@ -192,8 +198,8 @@ func stressOnce(o *kit.Out, r *kit.Rand, w, per, snappers int, metricsOn bool, y
 		swg.Add(1)
 		go func() {
 			defer swg.Done()
-			for !done.Load() {
-				res.SnapshotProgress(time.Second)
+			for k := 0; !done.Load(); k++ {
+				res.SnapshotProgress(cadence(k))
 				snaps.Add(1)
 				if yield {
 					runtime.Gosched()
@@ -355,8 +361,8 @@ func wholeRun(o *kit.Out, r *kit.Rand, idx int, m *metrics.Metrics) {
 			swg.Add(1)
 			go func() {
 				defer swg.Done()
-				for !stop.Load() {
-					rn.VerifResult().SnapshotProgress(time.Second)
+				for k := 0; !stop.Load(); k++ {
+					rn.VerifResult().SnapshotProgress(cadence(k))
 					forced.Add(1)
 					runtime.Gosched()
 				}
